@@ -6,7 +6,7 @@ MAPPER_NOTE = ('Trusted: the MIR text printed by the pinned nightly (rustc -Zunp
                'mirsym\'s MIR semantics and its std models (Vec, iterators, HashMap as association list, Option/Result, vec! lowering) - '
                'validated every run by differential execution of sampled symbolic paths against the natively compiled tree; '
                'bounds: at most N keys held (3 quick / 4 thorough; 2/3 on the large built-in layouts, which are explored per sub-alphabet), '
-               'layout corpus = unit-test layouts + built-in and README layouts loaded by the real loader + symbolic templates.')
+               'layout corpus = unit-test layouts + built-in and README layouts loaded by the real loader + symbolic templates (named ones, random ones, and two random families with four keys held whose event keys are restricted to the layout\'s own keys); on a tree that does arithmetic on key codes a key symbol reaching an integer cast is replaced by representative codes (boundary-value concretisation, DESIGN.md 11.2).')
 
 def mapper(pid, text):
     return {
@@ -66,17 +66,17 @@ def other(pid, text, note, technique):
     }
 
 CHECKS += [
-    loop('C10', 'Bounded symbolic exploration of all delivery schedules (batching, late arrivals, spurious time-outs, interruption, device gone at every position) of symbolic key histories; writes compared with the real mapper run sequentially; queues must be empty at every poll.'),
+    loop('C10', 'Bounded symbolic exploration of all delivery schedules (batching, late arrivals, spurious time-outs, interruption, device gone at every position - also in a notification that names the tablet switch too -, tablet switch gone) of symbolic key histories; writes compared with the real mapper run sequentially; queues must be empty at every poll.'),
     loop('C11', 'Same exploration with a symbolic non-decreasing clock and symbolic delay/interval: each requested time-out must equal the schedule t0+delay+j*interval-now (validity query), chords exactly once per genuine time-out, content/transience checked, cancellation on every key/tablet event.'),
     loop('C12', 'Same exploration with tablet on/off events anywhere (also in the same wake-up as key events, in either device order, and while a repeat is pending).'),
     loop('C20', 'Same exploration with a failure injected at each individual driver call of every explored schedule; the loop must return that error and write nothing afterwards.'),
-    other('C17', 'Bounded symbolic execution with a reference oracle: every character of the pattern is a symbol over all non-NUL Unicode scalar values; the produced unit text is decoded by a symbolic model of systemd\'s ExecStart parsing and every decoded byte compared by validity queries (all single characters, all pairs, two-pattern lists; thorough: triples, three patterns).',
+    other('C17', 'Bounded symbolic execution with a reference oracle: every character of the pattern is a symbol over all non-NUL Unicode scalar values; the produced unit text is decoded by a symbolic model of systemd\'s ExecStart parsing and every decoded byte compared by validity queries (all single characters, all pairs, two-pattern lists; thorough: triples, three patterns); dictionary leg: the tokens of the code\'s own string literals (placeholders, specifiers, words of the unit template), read from the current source, as patterns alone and next to one symbolic character.',
           'Trusted: the model of systemd\'s parser (oracle), the fmt::Arguments byte-template model (validated against the native build on random patterns every run), MIR text = program.',
           'symbolic execution of the real MIR of build_service_text/build_exclude_text/systemd_arg_escape/escape_one_char incl. format! templates on symbolic Unicode strings; z3 validity queries against a symbolic systemd decoder; native replay'),
     other('C18', 'Bounded symbolic execution with a reference oracle: batches of 0..3 (thorough 0..5) events with every key a 32-bit symbol over the 484 codes, every output byte checked by a validity query; reader over fully symbolic 24-byte records; round trip reader(writer(batch)).',
           'Trusted: input_event layout of x86-64/aarch64 Linux (24 bytes, little endian; size checked natively), read/write stubs as byte channels, summary of the derived FromPrimitive (established by running its MIR on 0..1023), MIR text = program.',
           'symbolic execution of the real MIR of DevInputWriter::send, StructSerializer::add_*, DevInputReader::next with nix read/write stubbed; z3 validity queries per byte/record; native replay through a pipe'),
-    other('C13', 'Bounded symbolic execution with a reference oracle: layout programs (rows, aliases with one or several definitions, plain/alias modifiers, repeat-only entries, every repeat form, absorbing) are converted by the real parser+converter MIR; in row programs one letter position at a time is a symbolic printable-ASCII character decided by the solver at the table lookup; the result is compared with a hand-written expansion built from an independent US-QWERTY table; equivalent spellings must convert identically.',
+    other('C13', 'Bounded symbolic execution with a reference oracle: layout programs (rows, aliases with one or several definitions, plain/alias modifiers, repeat-only entries, every repeat form, absorbing) are converted by the real parser+converter MIR; in row programs one letter position at a time is a symbolic printable-ASCII character decided by the solver at the table lookup; the result is compared with a hand-written expansion built from an independent US-QWERTY table; equivalent spellings must convert identically; seeded random well-formed programs in random source order (alias defined after use, repeat-only entries of every mode before/after/without their target) are compared with the same expansion.',
           'Trusted: the hand-written expansion (oracle); the emission rule for alias definitions themselves is taken from the code (the property does not define it); serde_json text parsing is dependency code; String/HashMap/serde_json::Value models (validated natively on the concrete programs each run).',
           'symbolic execution of the real MIR of parse_layout_from_json + convert (incl. lazily initialised tables) with symbolic letters, z3-decided table lookups, reference expansion oracle, native replay'),
     other('C14', 'Bounded symbolic execution looking for panics: serde_json::Value trees derived from a structure-aware grammar (wrong types, missing/extra fields, empty arrays, repeated keys, undefined/misplaced aliases, over-long rows, unknown characters, symbolic 64-bit numbers) run through parse -> convert -> Mapper::for_layout; accepted layouts and the whole mapper corpus are driven with symbolic key histories watching for panics.',
@@ -85,7 +85,7 @@ CHECKS += [
     other('C15', 'Bounded symbolic execution with a round-trip oracle: basic layouts (structure concrete, one key position symbolic at a time over all 484 codes, delay/interval symbolic i32) are serialised by the derived Serialize impls (crate MIR) against a model serializer and reloaded by the real parser+converter MIR; equality of the reloaded layout is decided per path / by validity queries. Second leg: every derivation of the C14 shorthand grammar that the real parser+converter accept (aliases, rows, repeat-only entries, absorbing, symbolic 64-bit timings) is saved and reloaded the same way.',
           'Trusted: the model serializer\'s correspondence to serde_json\'s writer (checked natively on concrete layouts each run); MIR text = program.',
           'symbolic execution of the real MIR of the derived Serialize impls + parse_layout_from_json + convert; a symbolic key forks into its 484 written names; z3 validity queries on delay/interval; native save/reload replay through a temporary file'),
-    other('C16', 'Bounded symbolic execution with a relational oracle: /proc/bus/input/devices texts assembled from realistic entries with symbolic structure (presence/order of lines, entry order, exclude patterns) and symbolic hex digits in the KEY and EV masks (solver-decided thresholds); both extractors must agree, classification must not depend on neighbours/order, and both discovery paths must select exactly the real, non-virtual, non-excluded keyboards.',
+    other('C16', 'Bounded symbolic execution with a relational oracle: /proc/bus/input/devices texts assembled from realistic entries with symbolic structure (presence/order of lines, entry order, exclude patterns) and symbolic hex digits in the KEY and EV masks (solver-decided thresholds); both extractors must agree, realistic complete entries (keyboards incl. a Bluetooth one under /devices/virtual/misc and one with empty bitmap words, mice with keyboard-like key maps incl. a macro mouse with an empty middle word, power button) have ground truth, classification must not depend on neighbours/order, and both discovery paths must select exactly the real, non-virtual, non-excluded keyboards.',
           'Trusted: /proc text format assumptions (every entry starts with I:), finite pools of names/paths/masks, stubs for read_to_string, the sysfs walk (dev_path_for_sysfs_name) and canonicalize, the */? glob contract of wildmatch; native replays run the real list_keyboards / filter_devices_verbose in a private mount namespace with a fake /proc, /sys and /dev/input.',
           'symbolic execution of the real MIR of both extractors, parse_mask_hex, list_keyboards, list_input_devices, flag_excluded*, filter_devices_verbose with environment stubs; metamorphic (relational) oracle; z3-decided mask digits; native replay in a mount namespace'),
 ]
